@@ -49,7 +49,195 @@ FAILS = {
     "table-csv-row-fails-midway": "table",
     "da-unknown-format": "dictarray",
     "tc-not-a-tree": "treecollection",
+    "tree-xml-array-param": "tree",
+    "tree-xml-too-deep": "tree",
 }
+
+# data-store writer apps whose serialisation step gets a failpoint: app name -> (object kind, method of the object
+# the app calls to serialise it, keyword arguments of the app)
+APP_WRITERS = {
+    "write_seqs": ("sc", "to_dict", {"format": "fasta"}, "fasta"),
+    "write_json": ("aln", "to_rich_dict", {}, "json"),
+    "write_tabular": ("table", "to_string", {"format": "tsv"}, "tsv"),
+}
+
+
+class FailpointError(Exception):
+    """raised by the harness inside the formatter / serialiser a writer calls"""
+
+
+class ReportedNotCompleted(Exception):
+    """a writer app reported the failure the app way: it returned a NotCompleted"""
+
+
+class FailpointNotReached(Exception):
+    """harness error: the wrapped formatter was never called by the write"""
+
+
+def failpoints_for(writer):
+    """names of the formatter failpoints that exist for a writer"""
+    fam, kind, fmt = WRITERS[writer]
+    if fam == "treecollection":
+        return ["formatter", "formatter-2nd-call"]
+    if fam == "table" and fmt in ("tsv", "csv"):
+        return ["formatter", "formatter-2nd-call"]  # csv rows: first row / second row
+    return ["formatter"]
+
+
+def _formatter_target(fam, kind, fmt, obj):
+    """(container, attribute / key, is dict item) of the function the write route calls to format obj"""
+    if fam == "seqs":
+        if fmt == "json":
+            return type(obj), "to_json", False
+        from cogent3.format.alignment import FORMATTERS
+
+        return FORMATTERS, fmt, True
+    if fam == "tree":
+        return type(obj), {"nwk": "get_newick", "xml": "get_xml", "json": "to_json"}[fmt], False
+    if fam == "table":
+        if fmt == "json":
+            return type(obj), "to_json", False
+        if fmt == "pickle":
+            return type(obj), "__getstate__", False
+        if fmt in ("tsv", "csv"):
+            return None, "csv-rows", False
+        return type(obj), "to_string", False
+    if fam == "dictarray":
+        return type(obj), "to_string", False
+    if fam == "treecollection":
+        return type(obj[0][1]), "get_newick", False
+    raise ValueError(fam)
+
+
+class _Patch:
+    """replace a class attribute / dict item by a wrapper that raises at its n-th call; undone on exit"""
+
+    def __init__(self, container, name, is_item, nth):
+        self.container, self.name, self.is_item, self.nth = container, name, is_item, nth
+        self.calls = 0
+        self.fired = False
+
+    def _wrap(self, orig):
+        def failing(*a, **kw):
+            self.calls += 1
+            if self.calls == self.nth:
+                self.fired = True
+                raise FailpointError(f"failpoint in {self.name}")
+            return orig(*a, **kw)
+
+        return failing
+
+    def __enter__(self):
+        if self.container is None:
+            # csv rows: the table hands its rows to csv.writer(...).writerow/writerows
+            import csv
+
+            self.orig = csv.writer
+            patch = self
+
+            class _W:
+                def __init__(self, *a, **kw):
+                    self._w = patch.orig(*a, **kw)
+
+                def writerow(self, row):
+                    patch.calls += 1
+                    if patch.calls == patch.nth:
+                        patch.fired = True
+                        raise FailpointError("failpoint in csv row formatting")
+                    return self._w.writerow(row)
+
+                def writerows(self, rows):
+                    for r in rows:
+                        self.writerow(r)
+
+            csv.writer = _W
+            return self
+        if self.is_item:
+            self.orig = self.container[self.name]
+            self.container[self.name] = self._wrap(self.orig)
+        else:
+            self.had = self.name in vars(self.container)
+            self.orig = getattr(self.container, self.name)
+            setattr(self.container, self.name, self._wrap(self.orig))
+        return self
+
+    def __exit__(self, *exc):
+        if self.container is None:
+            import csv
+
+            csv.writer = self.orig
+        elif self.is_item:
+            self.container[self.name] = self.orig
+        elif self.had:
+            setattr(self.container, self.name, self.orig)
+        else:
+            delattr(self.container, self.name)
+        return False
+
+
+class FailpointOp:
+    """obj.write(path) while the formatter the route calls raises FailpointError (harness failpoint)"""
+
+    def __init__(self, desc):
+        self.desc = desc
+        self.pre = bool(desc.get("pre"))
+        self.old = b"PREVIOUS CONTENT line 1\nPREVIOUS CONTENT line 2\n"
+        self.fam, kind, self.fmt = WRITERS[desc["writer"]]
+        self.obj = build(kind, "small", self.fmt)
+        self.dest = f"out.{self.fmt}{SUFFIX[desc['target']]}"
+        self.kwargs = {"format": "simple"} if self.fam == "table" and self.fmt == "txt" else {}
+        self.nth = 2 if desc["failpoint"].endswith("2nd-call") else 1
+        self.kind = kind
+
+    def setup(self, d):
+        if self.pre:
+            with open(os.path.join(d, self.dest), "wb") as f:
+                f.write(self.old)
+
+    def run(self, d):
+        container, name, is_item = _formatter_target(self.fam, self.kind, self.fmt, self.obj)
+        with _Patch(container, name, is_item, self.nth) as p:
+            self.obj.write(os.path.join(d, self.dest), **self.kwargs)
+        if not p.fired:
+            raise FailpointNotReached(f"{name} was called {p.calls} times by {self.desc}")
+
+
+class AppFailpointOp:
+    """a data-store writer app is called while the serialisation method it uses raises FailpointError"""
+
+    def __init__(self, desc):
+        self.desc = desc
+        self.pre = bool(desc.get("pre"))
+        kind, self.method, self.app_kw, self.suffix = APP_WRITERS[desc["app"]]
+        self.obj = build(kind, "small")
+        self.dest = "store"
+        self.ident = f"member.{self.suffix}"
+
+    def setup(self, d):
+        # a directory store with one member (harness-side: plain files in the layout the store uses)
+        store = os.path.join(d, self.dest)
+        for sub in ("", "not_completed", "logs", "md5"):
+            os.makedirs(os.path.join(store, sub), exist_ok=True)
+        import hashlib
+
+        for name in ["other"] + (["member"] if self.pre else []):
+            data = f"PREVIOUS CONTENT of {name}\n"
+            with open(os.path.join(store, f"{name}.{self.suffix}"), "w") as f:
+                f.write(data)
+            with open(os.path.join(store, "md5", f"{name}.txt"), "w") as f:
+                f.write(hashlib.md5(data.encode()).hexdigest())
+
+    def run(self, d):
+        from cogent3 import get_app, open_data_store
+
+        ds = open_data_store(os.path.join(d, self.dest), suffix=self.suffix, mode="w" if self.pre else "a")
+        writer = get_app(self.desc["app"], data_store=ds, **self.app_kw)
+        with _Patch(type(self.obj), self.method, False, 1) as p:
+            got = writer(self.obj, identifier=self.ident)
+        if not p.fired:
+            raise FailpointNotReached(f"{self.method} was not called by {self.desc}")
+        if type(got).__name__ == "NotCompleted":
+            raise ReportedNotCompleted(str(got.message)[-200:])
 
 
 def _seq_data(size, aligned):
@@ -183,6 +371,23 @@ class Op:
             self.obj = build("da")
             self.dest = "out.tsv" + sfx
             self.kwargs = {"format": "nope"}
+        elif fail == "tree-xml-array-param":
+            import numpy
+
+            self.obj = build("tree")
+            self.obj.get_node_matching_name("a").params["arr"] = numpy.array([1.0, 2.0])
+            self.dest = "out.xml" + sfx
+        elif fail == "tree-xml-too-deep":
+            from cogent3.core.tree import PhyloNode
+
+            root = cur = PhyloNode(name="root")
+            for i in range(3000):
+                c = PhyloNode(name=f"n{i}", length=1.0)
+                cur.append(c)
+                cur.append(PhyloNode(name=f"t{i}", length=1.0))
+                cur = c
+            self.obj = root
+            self.dest = "out.xml" + sfx
         elif fail == "tc-not-a-tree":
             self.obj = build("tc")
             self.obj.append((-99.0, "not a tree"))
@@ -227,6 +432,10 @@ def _raising_writer(rows, has_header=False):
 
 
 def make_op(desc):
+    if desc.get("app"):
+        return AppFailpointOp(desc)
+    if desc.get("failpoint"):
+        return FailpointOp(desc)
     return Op(desc)
 
 
